@@ -414,6 +414,90 @@ def impl_fn_names(toks, at):
         k += 1
     return names
 
+QBLOCK = [
+    (r"^type MatchedArchetype = # Archetype ;$", "aliasArchetype", None),
+    (r"^let mut closure = \| .* \| # body ;$", "bindClosure", None),
+    (r"^let archetype = # get_archetype ;$", "bindArchetype", None),
+    (r"^let version = archetype \. version \( \) ;$", "readVersion", None),
+    (r"^let len = archetype \. len \( \) ;$", "readLen", None),
+    (r"^let slices = # get_slices ;$", "fetchSlices", None),
+]
+
+QARM = [
+    (r"^let entity = slices \. entity \[ idx \] ;$", "bindEntityAtIdx", None),
+    (r"^archetype \. destroy \( entity \) ;$", "destroyEntity", None),
+    (r"^return ;$", "ret", None),
+]
+
+
+def loop_template(toks, fn):
+    """LoopT record (as Lean text) of the per-archetype `quote!( { … } )` pushed inside `fn`."""
+    params, lo, hi = find_fn(toks, fn)
+    ts = toks_of(toks, lo, hi)
+    n = len(ts)
+    at = [i for i in range(n - 6) if ts[i:i + 6] == ["queries", ".", "push", "(", "quote", "!"]]
+    if len(at) != 1:
+        raise ExtractError(f"{fn}: expected exactly one `queries.push(quote!(…))`")
+    q = at[0] + 6
+    qe = _end_of(ts, q)
+    inner = ts[q + 1:qe - 1]
+    if not inner or inner[0] != "{" or _end_of(inner, 0) != len(inner):
+        raise ExtractError(f"{fn}: the pushed template is not a single block")
+    stmts = split_stmts(inner[1:-1])
+    loops = [k for k, st in enumerate(stmts) if st and st[0] == "for"]
+    if len(loops) != 1:
+        raise ExtractError(f"{fn}: expected exactly one `for` loop in the template")
+    k = loops[0]
+    pre = classify(stmts[:k], QBLOCK)
+    post = classify(stmts[k + 1:], QBLOCK)
+    f = stmts[k]
+    text = " ".join(f)
+    m = re.match(r"^for idx in (0 \.\. len|\( 0 \.\. len \) \. rev \( \)) \{ (.*) \}$", text)
+    if not m:
+        raise ExtractError(f"{fn}: loop header not recognised: {text[:80]}")
+    rev = m.group(1) != "0 .. len"
+    b = f.index("{")
+    body_stmts = split_stmts(f[b + 1:-1])
+    mt = [j for j, st in enumerate(body_stmts) if st and st[0] == "match"]
+    if len(mt) != 1 or mt[0] != len(body_stmts) - 1:
+        raise ExtractError(f"{fn}: the loop body must end with exactly one `match`")
+    body = classify(body_stmts[:-1], QBLOCK)
+    mm = body_stmts[-1]
+    mtext = " ".join(mm)
+    if not re.match(r"^match closure \( # \( # attrs # bind \) , \* \) \. into \( \) \{", mtext):
+        raise ExtractError(f"{fn}: match scrutinee not recognised: {mtext[:80]}")
+    mb = mm.index("{", mm.index("into"))
+    arms_toks = mm[mb + 1:-1]
+    arms = []
+    i = 0
+    while i < len(arms_toks):
+        if arms_toks[i] == ",":
+            i += 1
+            continue
+        j = i
+        while arms_toks[j] != "=>":
+            j += 1
+        path = arms_toks[i:j]
+        if arms_toks[j + 1] != "{":
+            raise ExtractError(f"{fn}: arm body is not a block")
+        e = _end_of(arms_toks, j + 1)
+        rows = classify(split_stmts(arms_toks[j + 2:e - 1]), QARM)
+        arms.append((path[-1] if len(path) == 3 and path[1] == "::" else "?" + " ".join(path), rows))
+        i = e
+    wrapped = any(ts[i:i + 13] == ["(", "|", "|", "{", "#", "(", "#", "queries", ")", "*", "}", ")", "("] for i in range(n - 13)) \
+        or any(ts[i:i + 12] == ["(", "||", "{", "#", "(", "#", "queries", ")", "*", "}", ")", "("] for i in range(n - 12))
+
+    def lst(rows):
+        return "[" + ", ".join("." + c for (c, _) in rows) + "]"
+    src = lambda rows: "; ".join(t for (_, t) in rows)
+    lines = ["{ pre := " + lst(pre) + ",   -- " + src(pre)[:200],
+             f"    rev := {'true' if rev else 'false'},   -- {' '.join(f[:f.index('{')])}",
+             "    body := " + lst(body) + ",   -- " + src(body),
+             "    arms := [" + ", ".join(f'("{nm}", {lst(rows)})' for (nm, rows) in arms) + "],",
+             "    post := " + lst(post) + ",",
+             f"    wrapped := {'true' if wrapped else 'false'} }}"]
+    return "\n".join(lines)
+
 SLOT = [
     DBG,
     (r"^self \. index = SlotIndex :: new_data \( p0 \) ;$", "indexNewData", None),
@@ -566,6 +650,18 @@ def extract_steps():
             names = ["NOT RECOGNISED"]
         parts.append(lean_list(pre + "NextSteps", "IStep", rows, f"src/archetype/iter.rs `impl Iterator for ${macro_var}`: statements of `next`, in source order"))
         parts.append(f"/-- … and the names of ALL methods that impl block defines -/\ndef {pre}ImplMethods : List String := [" + ", ".join('"%s"' % n for n in names) + "]")
+    # --- the loop templates of ecs_iter! / ecs_iter_destroy! (macros/src/generate/query.rs)
+    try:
+        qry = tokenize(read("macros/src/generate/query.rs"))
+    except OSError:
+        qry = []
+    for fn, name in (("generate_query_iter", "iterLoopT"), ("generate_query_iter_destroy", "iterDestroyLoopT")):
+        try:
+            rec = loop_template(qry, fn)
+        except (ExtractError, IndexError, ValueError) as ex:
+            msg = str(ex).replace("-/", "- /")
+            rec = "{ pre := [.unknown], rev := false, body := [], arms := [], post := [], wrapped := false }   -- NOT RECOGNISED: " + msg[:160]
+        parts.append(f"/-- macros/src/generate/query.rs `{fn}`: control skeleton of the per-archetype block template -/\ndef {name} : LoopT :=\n  " + rec)
     # --- with_capacity (statements + literal) and clear_events
     try:
         params, lo, hi = find_fn(sto, "with_capacity")
@@ -620,7 +716,7 @@ def extract_steps():
     head = ("/- GENERATED by tools/extract.py (tools/extract_steps.py) from /repo/src/archetype/{storage.rs, slot.rs} on every run.\n"
             "   Do not edit.  The statements of the mutating primitives, classified and listed in source order; meaning:\n"
             "   Gecs/Model/Steps.lean; tie theorems: Gecs/Lemmas/GenSteps.lean. -/\n"
-            "import Gecs.Model.Steps\nimport Gecs.Model.ResolveSteps\nimport Gecs.Model.CloneSteps\nimport Gecs.Model.PushSteps\nimport Gecs.Model.KeySteps\nimport Gecs.Model.InitSteps\nimport Gecs.Model.IterSteps\n\nnamespace Gecs.Gen\n\n")
+            "import Gecs.Model.Steps\nimport Gecs.Model.ResolveSteps\nimport Gecs.Model.CloneSteps\nimport Gecs.Model.PushSteps\nimport Gecs.Model.KeySteps\nimport Gecs.Model.InitSteps\nimport Gecs.Model.IterSteps\nimport Gecs.Model.LoopSteps\n\nnamespace Gecs.Gen\n\n")
     return head + "\n\n".join(parts) + "\n\nend Gecs.Gen\n"
 
 
